@@ -1,0 +1,32 @@
+//go:build verif
+
+package bitcoin_reader
+
+import (
+	"context"
+	"net"
+)
+
+// RunWithConn runs the node over a caller supplied connection instead of dialing the node's
+// address. It is only built with the "verif" tag and is used by external verification harnesses.
+func (n *BitcoinNode) RunWithConn(ctx context.Context, connection net.Conn,
+	interrupt <-chan interface{}) error {
+
+	if err := n.mockConnect(ctx, connection); err != nil {
+		return err
+	}
+
+	return n.run(ctx, interrupt)
+}
+
+// VerifSynchronizeBlocks runs one round of block synchronization in the calling goroutine.
+func (m *NodeManager) VerifSynchronizeBlocks(ctx context.Context,
+	interrupt <-chan interface{}) error {
+	return m.synchronizeBlocks(ctx, interrupt)
+}
+
+// VerifMarkStartupDelayComplete marks the start up delay as complete, which enables
+// TriggerBlockSynchronize, without running the node manager.
+func (m *NodeManager) VerifMarkStartupDelayComplete(ctx context.Context) {
+	m.markStartupDelayComplete(ctx)
+}
